@@ -2,13 +2,18 @@ From TFL Require Export Harness.Compare Model.LatticeFinalize.
 Open Scope Q_scope.
 (* CFin: lattice_lib.finalize_constraints(w) = out.
    CCon: LatticeConstraints(strict)(w) = out, where wd is the real output of the
-         Dykstra stage for w (or w itself when the stage is skipped: ran=false). *)
+         Dykstra stage for w (or w itself when the stage is skipped: ran=false).
+   CTol t c: case c compared with relative tolerance t instead of the default
+         1e-9 (float32 cases: 1e-5). *)
 Inductive case :=
 | CFin (c : lat_cfg) (w out : list Q)
-| CCon (c : lat_cfg) (ran : bool) (wd out : list Q).
+| CCon (c : lat_cfg) (ran : bool) (wd out : list Q)
+| CTol (t : Q) (c : case).
 Definition tol : Q := 1 # 1000000000.
-Definition check (c : case) : bool :=
+Fixpoint check_with (t : Q) (c : case) : bool :=
   match c with
-  | CFin cfg w out => qlist_close tol (finalize_flat cfg w) out
-  | CCon cfg ran wd out => qlist_close tol (constraint_flat cfg ran wd) out
+  | CFin cfg w out => qlist_close t (finalize_flat cfg w) out
+  | CCon cfg ran wd out => qlist_close t (constraint_flat cfg ran wd) out
+  | CTol t' c' => check_with t' c'
   end.
+Definition check (c : case) : bool := check_with tol c.
